@@ -83,10 +83,16 @@ func profileFor0(name string) *Profile {
 		p.ClassW = map[string]int{"canon": 15, "refuse": 3, "free": 5, "plain": 40, "nearmiss": 25, "exotic": 2, "multierr": 2}
 		p.W["sendout"], p.W["byz"], p.W["orbadmin"] = 14, 10, 10
 	case "C08":
+		p.SpecialEvery = 6
+		p.Special, p.SpecialReplay = specialC03, replayC03
+		p.Assumptions = append(p.Assumptions, "one run in six is a mode-B scenario check (the C03 enumeration with the orbiter's own store as a fault seam): the transfer is delivered with its protocol, pair or fee action paused while every store call fails once per error class - a pause holds whatever the store answers - and every store call of the unpaused delivery fails once per mode (no panic outside the injected ones)")
 		p.Checkpoint = []string{"pausequeries"}
 		p.W["checkpoint"], p.W["orbadmin"] = 3, 18
 		p.Shadows = []string{"pausediff"}
 	case "C09":
+		p.SpecialEvery = 6
+		p.Special, p.SpecialReplay = specialC03, replayC03
+		p.Assumptions = append(p.Assumptions, "one run in six is a mode-B scenario check (the C03 enumeration with the orbiter's own store as a fault seam): the transfer is delivered with its protocol, pair or fee action paused while every store call fails once per error class - a pause holds whatever the store answers - and every store call of the unpaused delivery fails once per mode (no panic outside the injected ones)")
 		p.Checkpoint = []string{"pausequeries"}
 		p.W["checkpoint"], p.W["orbadmin"] = 3, 18
 		p.Shadows = []string{"actiondiff"}
@@ -115,6 +121,9 @@ func profileFor0(name string) *Profile {
 		p.ClassW = map[string]int{"canon": 90, "refuse": 3, "free": 2, "plain": 3, "nearmiss": 1, "exotic": 1, "multierr": 0}
 		p.StepsMin, p.StepsMax = 40, 90
 	case "C14":
+		p.SpecialEvery = 6
+		p.Special, p.SpecialReplay = specialC03, replayC03
+		p.Assumptions = append(p.Assumptions, "one run in six is a mode-B scenario check (the C03 enumeration with the orbiter's own store as a fault seam): the transfer is delivered with its protocol, pair or fee action paused while every store call fails once per error class - a pause holds whatever the store answers - and every store call of the unpaused delivery fails once per mode (no panic outside the injected ones)")
 		p.ClassW = map[string]int{"canon": 25, "refuse": 20, "free": 40, "plain": 4, "nearmiss": 4, "exotic": 25, "multierr": 8}
 		p.W["byz"], p.W["envadmin"], p.W["dust"] = 14, 4, 6
 		p.ModDepositP = 0.05
@@ -160,8 +169,8 @@ func profileFor0(name string) *Profile {
 		p.NonTrivialCounters = []string{"injected_executions", "rule:C03.refund"}
 		p.Special, p.SpecialReplay = specialC03, replayC03
 		p.Level = "fault_enumeration"
-		p.EvidenceRule = "each evaluation is one mode-B world with one drawn known-good scenario (route x fee shape x dust x passthrough); its dynamic call sequence at the interposed seams (bank sends, dust sweep, wrapped ICS-20 application, CCTP / Hyperlane / internal message servers, Hyperlane token query, event manager) is recorded by a fault-free dry run, then EVERY single call is failed (before and after its side effects) and EVERY pair of calls, each on a fresh branch; one drawn fault per scenario is also delivered for real through IBC core and its acknowledgement relayed back. Exhaustive per scenario, sampled over scenarios. distinct_nontrivial counts distinct (route, failing site and occurrence, before/after, single/pair) combinations that actually fired."
-		p.Assumptions = []string{"mode B re-states about 40 lines of wiring (the real wiring is exercised by the mode-A natural-failure runs of C01/C02/C12)", "the statistics update has no interposable call and is never faulted (the code documents it as deliberately swallowed)"}
+		p.EvidenceRule = "each evaluation is one mode-B world with one drawn known-good scenario (route x fee shape x dust x passthrough); its dynamic call sequence at the interposed seams (bank sends, dust sweep, wrapped ICS-20 application, CCTP / Hyperlane / internal message servers, Hyperlane token query, event manager) is recorded by a fault-free dry run, then EVERY single call is failed (before and after its side effects, by panicking, and once per registered error class) and EVERY pair of calls, each on a fresh branch; the orbiter's own key-value store is a seam too: every store call of the delivery fails once per mode, and the delivery is repeated with its protocol, pair and fee action paused while every store call fails once per error class; one drawn fault per scenario is also delivered for real through IBC core and its acknowledgement relayed back. Exhaustive per scenario, sampled over scenarios. distinct_nontrivial counts distinct (route, failing site and occurrence, before/after, single/pair) combinations that actually fired."
+		p.Assumptions = []string{"mode B re-states about 40 lines of wiring (the real wiring is exercised by the mode-A natural-failure runs of C01/C02/C12)", "store faults are injected at the KVStoreService boundary of the orbiter module only (IAVL/MemDB below it and the stores of other modules run unfaulted); a swallowed failure of a statistics write after the bridge request is what the dispatcher documents and is accepted when the fund movements are unchanged"}
 	case "C03A":
 		// mode-A part of C03: natural failures (blacklists, pauses, burn limit, missing messenger/router), gas cuts, restarts
 		p.Own = map[string]bool{"C03": true}
